@@ -228,3 +228,10 @@ func (t *recTxn) Commit(ctx context.Context) error                    { return n
 func (t *recTxn) Discard(ctx context.Context)                         {}
 
 var _ datastore.TxnFeature = (*RecDS)(nil)
+
+// Attempts returns the number of write attempts seen so far.
+func (d *RecDS) Attempts() int {
+	d.mu.Lock()
+	defer d.mu.Unlock()
+	return d.attempts
+}
